@@ -177,3 +177,139 @@ def specs(vocab, tier, arities=(0, 1, 2)):
                     if a[0] in ('imm', 'sym') and b[0] != 'reg':
                         continue        # an immediate destination is only meaningful for out/enter-like forms (kept: imm, reg)
                     yield (mn, (a, b))
+
+
+# ---------------------------------------------------------------------------
+# presentation-only rewrites (C19): the same spec rendered in another spelling
+
+def _num(v, style):
+    if style.get('base') == 'hex':
+        return ('-0x%x' % -v) if v < 0 else ('0x%x' % v)
+    if style.get('base') == 'HEX':
+        return ('-0X%X' % -v) if v < 0 else ('0X%X' % v)
+    return str(v)
+
+
+def render_operand_styled(o, style):
+    k = o[0]
+    up = style.get('case') == 'upper'
+    if k == 'reg':
+        n = o[1]
+        if n == 'st' and style.get('st0'):
+            n = 'st(0)'
+        elif n == 'st(0)' and style.get('st0'):
+            n = 'st'
+        if up:
+            n = n.upper()
+        if style.get('percent'):
+            n = '%' + n
+        return n
+    if k == 'imm':
+        v = o[1]
+        w = style.get('wrap')
+        if w:
+            if v < 0:
+                v += 1 << w
+            elif v >= (1 << (w - 1)) and v < (1 << w):
+                v -= 1 << w
+        return _num(v, style)
+    if k == 'sym':
+        return o[1]
+    _, size, seg, base, index, scale, disp = o
+    b, i = base, index
+    if up:
+        b, i = (b.upper() if b else b), (i.upper() if i else i)
+    if style.get('percent'):
+        b, i = ('%' + b if b else b), ('%' + i if i else i)
+    it = ('%s*%d' % (i, scale) if scale != 1 else i) if i else None
+    if style.get('scale_first') and i and scale != 1:
+        it = '%d*%s' % (scale, i)
+    terms = [t for t in ((it, b) if style.get('index_first') else (b, it)) if t]
+    sp = ' ' if style.get('inner_space') else ''
+    ds = style.get('disp', 'last')
+    if not terms:
+        s = '[%s]' % _num(disp, style)
+    elif disp == 0 and ds != 'outside':
+        s = '[%s]' % (sp + '+' + sp).join(terms)
+    elif ds == 'outside':
+        s = '%s[%s]' % (_num(disp, style), (sp + '+' + sp).join(terms))
+    elif ds == 'first' and disp >= 0:
+        s = '[%s]' % (sp + '+' + sp).join([_num(disp, style)] + terms)
+    else:
+        s = '[%s%s]' % ((sp + '+' + sp).join(terms), (sp + '+' + sp + _num(disp, style)) if disp >= 0 else (sp + '-' + sp + _num(-disp, style)))
+    if seg:
+        s = '%s:%s' % (seg.upper() if up else seg, s)
+    if size:
+        kw = SIZEKW[size] + ' PTR'
+        if style.get('kwcase') == 'lower':
+            kw = kw.lower()
+        elif style.get('kwcase') == 'mixed':
+            kw = kw.title()
+        s = '%s %s' % (kw, s)
+    return s
+
+
+def render_styled(spec, style):
+    mn, ops = spec
+    sep = {'none': ',', 'tab': ',\t', 'double': ',  '}.get(style.get('comma'), ', ')
+    gap = {'tab': '\t', 'double': '   '}.get(style.get('gap'), ' ')
+    return (mn + gap + sep.join(render_operand_styled(o, style) for o in ops)).rstrip()
+
+
+def opwidth(spec):
+    """operand width the line itself fixes (8/16/32) or None"""
+    for o in spec[1]:
+        if o[0] == 'reg':
+            c = R.regclass(o[1])
+            if c in ('r8', 'r16', 'r32'):
+                return int(c[1:])
+        if o[0] == 'mem' and o[1] in (8, 16, 32):
+            return o[1]
+    return None
+
+
+def rewrites(spec):
+    """(kind, style) pairs applicable to this spec"""
+    ops = spec[1]
+    has_reg = any(o[0] == 'reg' for o in ops) or any(o[0] == 'mem' and (o[3] or o[4]) for o in ops)
+    has_mem = any(o[0] == 'mem' for o in ops)
+    has_num = any(o[0] == 'imm' for o in ops) or any(o[0] == 'mem' and o[6] for o in ops)
+    out = []
+    if has_reg:
+        out.append(('case-registers', {'case': 'upper'}))
+        out.append(('percent-prefix', {'percent': True}))
+    if any(o[0] == 'mem' and o[1] for o in ops):
+        out.append(('case-size-keyword', {'kwcase': 'lower'}))
+        out.append(('case-size-keyword', {'kwcase': 'mixed'}))
+    if len(ops) >= 2:
+        out.append(('spacing', {'comma': 'none'}))
+        out.append(('spacing', {'comma': 'tab'}))
+        out.append(('spacing', {'comma': 'double'}))
+    if ops:
+        out.append(('spacing', {'gap': 'tab'}))
+        out.append(('spacing', {'gap': 'double'}))
+    if has_mem:
+        out.append(('spacing', {'inner_space': True}))
+    if has_num:
+        out.append(('number-base', {'base': 'hex'}))
+        out.append(('number-base', {'base': 'HEX'}))
+    w = opwidth(spec)
+    if any(o[0] == 'imm' for o in ops):
+        if w == 32 or (w is None and spec[0] == 'push'):
+            out.append(('sign-convention-32', {'wrap': 32}))
+        elif w in (8, 16):
+            out.append(('sign-convention-%d' % w, {'wrap': w}))
+    for o in ops:
+        if o[0] == 'mem' and (o[3] or o[4]) and o[6]:
+            out.append(('disp-position', {'disp': 'outside'}))
+            if o[6] > 0:
+                out.append(('disp-position', {'disp': 'first'}))
+            break
+    for o in ops:
+        if o[0] == 'mem' and o[3] and o[4] and o[5] != 1:
+            out.append(('term-order', {'index_first': True}))
+            out.append(('term-order', {'scale_first': True}))
+            break
+    if any(o == ('reg', 'st') for o in ops):
+        out.append(('st-vs-st0', {'st0': True}))
+    return out
